@@ -753,6 +753,7 @@ def _build_map(skel, hi, hb, mv, gs, bools, ac, qh, iv):
                 quickhide_count=qh, strata_inst_visibility=inst)
     m.spawn["skyname"] = "sky_day01_01"
     m.spawn["detailmaterial"] = 'detail/"x"'
+    m.spawn.comments = 'world "c"\\n'        # every optional editor field of worldspawn is populated too
     if skel == 0:       # entities only: point, instance with fixups, hidden point entity; cameras; one cordon
         m.add_ent(_mk_entity(m, "default_logical", "", ks=0, ent_id=-1))
         m.add_ent(_mk_entity(m, "none", "", ks=1, ent_id=-1, hidden=True, outputs=False))
